@@ -13,16 +13,15 @@ from props import c10
 PID = "X02"
 
 
-def run(tier, v):
-    wd = vlib.workdir(PID)
-    vlib.build_harness()
+def build(pid):
+    """MC_X02's interleavings rendered as real packets: (lines per analyzer, meta per line id, states, transitions)"""
     lines, meta = {"tls": [], "http": []}, {}
     states = trans = 0
     H = [c10.hello("x02-%d.example" % i) for i in range(5)]
     SH = bytes([0x16, 3, 3, 0, 42, 2, 0, 0, 38, 3, 3]) + bytes(range(32)) + bytes([0, 0xc0, 0x2f, 0])
     for scen in ("tls_split3", "tls_mixed", "http_two", "http_three"):
         acc = []
-        r = vlib.tlc("MC_X02", pid=PID, workers=8, env={"VERIF_SCEN": scen}, tag_sink=lambda tag, o: acc.append(o), timeout=1800)
+        r = vlib.tlc("MC_X02", pid=pid, workers=8, env={"VERIF_SCEN": scen}, tag_sink=lambda tag, o: acc.append(o), timeout=1800)
         if r.inv_violated:
             raise vlib.ToolError("Tables.tla: a table exceeds its capacity in the model (%s)" % r.inv_violated)
         states += r.distinct
@@ -64,6 +63,13 @@ def run(tier, v):
             i = len(meta)
             meta[i] = o
             lines[mode].append({"id": i, "op": "packets", "cap": o["cap"], "frames": [f.hex() for f in frames]})
+    return lines, meta, states, trans
+
+
+def run(tier, v):
+    wd = vlib.workdir(PID)
+    vlib.build_harness()
+    lines, meta, states, trans = build(PID)
     n = n_nontriv = 0
     for mode in ("tls", "http"):
         req = os.path.join(wd, "%s.req" % mode)
